@@ -1004,7 +1004,7 @@ func (c *vsCase) resign(k, j int, key *vsKey, algo int, script, amount []byte, h
 
 // corrupt applies one corruption to the input c.idx (or to the packet); returns its name
 func corrupt(r *Rng, c *vsCase, spends []*vsSpend) string {
-	return corruptKind(r, c, spends, r.Intn(42))
+	return corruptKind(r, c, spends, r.Intn(43))
 }
 
 func corruptKind(r *Rng, c *vsCase, spends []*vsSpend, kind int) (name string) {
@@ -1041,6 +1041,17 @@ func corruptKind(r *Rng, c *vsCase, spends []*vsSpend, kind int) (name string) {
 		}
 	}
 	switch kind {
+	case 42:
+		// the same key a second time (byte-identical entry, after the genuine one) with a signature that does not
+		// verify: every partial signature of the input must be checked, not one per key (seeded change C10-q)
+		sg := pickSig()
+		if sg == nil || !sg.present || len(sg.sig) < 12 || len(sg.pub) == 0 {
+			return "none"
+		}
+		bad := append([]byte{}, sg.sig...)
+		bad[len(bad)-3] ^= 0x01
+		in.sigs = append(in.sigs, &vsSig{present: true, pub: append([]byte{}, sg.pub...), sig: bad})
+		return "dup-key-bad-second"
 	case 38, 39, 40, 41:
 		// the redeem / witness script sits in the other field and the signatures are made
 		// over what that placement suggests (redeem script: legacy hash, witness script: segwit hash)
